@@ -11,7 +11,7 @@ for pid in ALL:
     if pid not in props_cfg.PROPS or pid in mm.NOT_CLAIMED:
         continue
     cfg = props_cfg.PROPS[pid]
-    meta = mm.META[pid]
+    meta = props_cfg.METAS[pid]
     checks.append(dict(
         property_id=pid,
         quick_cmd="./check %s --tier quick" % pid,
